@@ -62,6 +62,9 @@ class Session:
         # TLS 1.3: beginning of a handshake message whose rest is in a later record
         self.handshake_rest_server = b""
         self.handshake_rest_client = b""
+        # plaintext handshake: number of bytes of the current message that later records still carry
+        self.handshake_pending_server = 0
+        self.handshake_pending_client = 0
 
         self.can_decrypt = False
         self.client_hello_seen = False
@@ -302,18 +305,35 @@ class Session:
                 logging.warning(f"Could not decrypt Record: Handshake finished")
             return
 
-        match record.binary[0]:
-            # client Hello
-            case 0x01:
-                self.handle_tls_client_hello(record)
-            case 0x02:
-                self.handle_tls_server_hello(record)
-            # ignore the others for now (in TLS 1.3 in application Records)
-            case _:
-                try:
-                    self.handle_handshake_finished(record, isserver)
-                except Exception as e:
-                    logging.warning(f"Could not decrypt Record: Handshake finished")
+        # a handshake message may continue in the next record: such a record does not start with a message type
+        if isserver:
+            pending = self.handshake_pending_server
+        else:
+            pending = self.handshake_pending_client
+
+        if pending == 0:
+            match record.binary[0]:
+                # client Hello
+                case 0x01:
+                    self.handle_tls_client_hello(record)
+                case 0x02:
+                    self.handle_tls_server_hello(record)
+                # ignore the others for now (in TLS 1.3 in application Records)
+                case _:
+                    try:
+                        self.handle_handshake_finished(record, isserver)
+                    except Exception as e:
+                        logging.warning(f"Could not decrypt Record: Handshake finished")
+
+        # bytes of the last message of this record that are still to come
+        index = pending
+        while index + 4 <= len(record.binary):
+            index += 4 + int.from_bytes(record.binary[index + 1:index + 4], 'big')
+
+        if isserver:
+            self.handshake_pending_server = max(0, index - len(record.binary))
+        else:
+            self.handshake_pending_client = max(0, index - len(record.binary))
 
     def handle_handshake_finished(self, record, isserver):
         if self.decryptor is None:
